@@ -103,3 +103,16 @@ Definition seq_fresh_after (cf : cfg) (h : list rop) (o : nat) : bool :=
 Definition h_seq : list rop :=
   [New PV nat CV KSvf 0 (PkFun PV 0 false); New PV nat CV KDisp 0 (PkTen PV (qv 1 (-2), 0) false);
    NewSeq PV nat CV [0; 1; 0]; Call PV nat CV 2; Edit PV nat CV 1 (qv 5 7, 0); CondSet PV nat CV 2 (3, 0)].
+
+(* composite direct access witness: disp() of the composite (no call) after h *)
+Definition seq_direct_fresh_after (cf : cfg) (h : list rop) (o : nat) : bool :=
+  let s := x_run cf h in
+  match snd (x_step cf s (Disp PV nat CV o)), get_obj PV nat CV s o with
+  | Out _ _ l _, Some ob => negb (Nat.eqb (length l) 0) && tags_match s l (o_members PV nat CV ob)
+  | _, _ => false
+  end.
+Definition h_seq_direct : list rop :=
+  [New PV nat CV KSvf 0 (PkTen PV (qv 1 (-2), 0) true); New PV nat CV KLin 0 (PkTen PV (qv 2 2, 0) false);
+   NewSeq PV nat CV [1; 0]; Call PV nat CV 2; Edit PV nat CV 0 (qv 5 7, 0); Clear PV nat CV 2].
+(* without the clear_buffers() the composite reads the member's stale field (documented: update() required) *)
+Definition h_seq_direct_noclear : list rop := firstn 5 h_seq_direct.
